@@ -510,13 +510,16 @@ Definition claim_launch (w : world) (c : claim) (f : fault) : list eff * res * b
   if c_pid c then (e1, ROk, false)               (* Launched = True: the cache entry is dropped *)
   else
     (* Launch.Reconcile: cached result of an earlier Create, else Create *)
-    let '(e2, created) :=
-      if k0 then ([], true)
+    (* Create errors: InsufficientCapacity / NodeClassNotReady (injected as KNotFound / KConflict) make Launch delete
+       the NodeClaim and return without error; any other error is returned *)
+    let '(e2, created, gaveup) :=
+      if k0 then ([], true, false)
       else match fails f SProvCreate with
-           | Some _ => ([EProvCreate false], false)
-           | None => ([EProvCreate true], true)
+           | Some KServer => ([EProvCreate false], false, false)
+           | Some _ => ([EProvCreate false; EDelClaim true], false, true)
+           | None => ([EProvCreate true], true, false)
            end in
-    if negb created then (e1 ++ e2, RErr, k0)
+    if negb created then (e1 ++ e2, (if gaveup then ROk else RErr), k0)
     else match fails f SPatchMeta, fails f SPatchStatusL with
          | None, None => (e1 ++ e2 ++ [EPersist true], ROk, true)
          | Some KNotFound, _ | None, Some KNotFound => (e1 ++ e2 ++ [EPersist false], ROk, true)
@@ -788,11 +791,18 @@ Definition accounted_b (w : world) : bool :=
   end.
 Definition accounted (w : world) : Prop := accounted_b w = true.
 
-(* histories in which nobody deletes the NodeClaim while it holds an unrecorded instance *)
+(* histories in which nobody deletes the NodeClaim while it holds an unrecorded instance: neither a user / another
+   controller (EnvDelClaim) nor the launch itself when Create answers InsufficientCapacity / NodeClassNotReady *)
+Definition gives_up (f : fault) : bool :=
+  match fails f SProvCreate with Some KServer | None => false | Some _ => true end.
+Definition delete_guard (w : world) (o : op) : bool :=
+  match o with
+  | EnvDelClaim => recorded_or_absent_b w
+  | RClaim f | RClaimStale _ f => if gives_up f then recorded_or_absent_b w else true
+  | _ => true
+  end.
 Fixpoint deletes_recorded (w : world) (ops : list op) : bool :=
   match ops with
   | [] => true
-  | o :: rest =>
-      (match o with EnvDelClaim => recorded_or_absent_b w | _ => true end)
-      && deletes_recorded (fst (step w o)) rest
+  | o :: rest => delete_guard w o && deletes_recorded (fst (step w o)) rest
   end.
